@@ -22,7 +22,9 @@ import numpy as np
 from ctmverif import election_util as eu
 from ctmverif import election_pipeline as ep
 
-RULE = ('unit: vote tables with 1-6 children over 1-9 leaves, 1-12 '
+RULE = ('unit: every vote table with <= 3 leaves / <= 2 iterations (thorough: '
+        '<= 4 leaves / <= 3 iterations, every leaf->child partition); random '
+        'vote tables with 1-6 children over 1-9 leaves, 1-12 '
         'iterations, compositions with zeros and ties, n_assignments '
         '1..children+2, correlations in [-1,1]; pipeline: generated mapping '
         'problems biased to flatten / drop_level / 1 iteration / 0 runners-up '
@@ -405,6 +407,43 @@ def check_records(ctx, case):
              if any(not lv['single'] for c in cells for lv in c) else None)
 
 
+def all_small_tables(max_leaves=4, max_iters=3):
+    """every (leaf -> child map up to renaming, vote composition) with
+    <= max_leaves leaves and <= max_iters iterations"""
+    names = ['b', 'a', 'c d', 'B']          # creation order != sorted order
+
+    def growth(n):
+        # restricted growth strings = set partitions of n leaves
+        def rec(prefix, mx):
+            if len(prefix) == n:
+                yield list(prefix)
+                return
+            for v in range(mx + 2):
+                yield from rec(prefix + [v], max(mx, v))
+        yield from rec([0], 0)
+
+    def comps(total, parts):
+        if parts == 1:
+            yield [total]
+            return
+        for v in range(total + 1):
+            for rest in comps(total - v, parts - 1):
+                yield [v] + rest
+
+    for n in range(1, max_leaves + 1):
+        for g in growth(n):
+            types = [names[v] for v in g]
+            k = len(set(types))
+            for iters in range(1, max_iters + 1):
+                for votes in comps(iters, n):
+                    for n_assign in sorted(set([1, 2, k + 1])):
+                        corr = [float(v) * (0.5 if i % 2 else -0.25)
+                                for i, v in enumerate(votes)]
+                        yield {'kind': 'unit', 'types': types,
+                               'votes': [votes], 'corr': [corr],
+                               'iters': iters, 'n_assign': n_assign}
+
+
 def corpus_dir():
     from ctmverif import core
     return core.VERIF / 'corpus' / 'C03'
@@ -418,6 +457,11 @@ def run(ctx):
     quick = ctx.tier == 'quick'
     for i in range(400 if quick else 4000):
         check_unit(ctx, gen_unit(rng, i))
+    n_ex = 0
+    for case in all_small_tables(3, 2) if quick else all_small_tables(4, 3):
+        check_unit(ctx, case)
+        n_ex += 1
+    ctx.extra_cov['exhaustive_small_vote_tables'] = n_ex
     for i in range(150 if quick else 1500):
         check_records(ctx, gen_records(rng, i))
     for i in range(70 if quick else 1200):
